@@ -1,32 +1,54 @@
 /-
-C17 on the regenerated list of map iterations in /repo: every site is known and
-is covered by an order-independence argument.  A new `range` over a map in the
-generation path changes `Gen.mapRanges` and breaks this obligation.
+C17 on the regenerated census of map enumerations in /repo (`Gen.MapRanges`, go/types over the
+packages of the generation path: reg ir pass printer build gotypes buildtags attr operand x86
+internal/prnt internal/stack src).  Counted as an enumeration: `range` over a map,
+`maps.Keys/Values/All` (unless directly inside `slices.Sorted*`), `reflect.Value.MapKeys/MapRange/Seq`,
+`sync.Map.Range`.
+
+The obligation is on the SET of (package, underlying map type) pairs: every map type whose order is
+enumerated anywhere in the generation path is one of the types below, each of which has an
+order-independence theorem about its model.  It is an inclusion, not an equality on source text:
+moving a loop into a helper, renaming variables or named map types, inlining
+`Clone`+`DifferenceUpdate`, removing a loop or adding another loop over a map type the package
+already enumerates does not break it; the first enumeration of a NEW map type in a package (for
+instance a `map[string]bool` in `printer`) does.
 -/
 import AvoVerif.Props.C17
 import AvoVerif.Gen.MapRanges
 namespace Avo.Determinism
 
-/-- Every map iteration in the generation path, with the reason its order is irrelevant:
-* `AddInterferenceSet`  — edge *list* order: `allocLoop_perm` (via `foldl_perm`: `update` treats the edges as a multiset)
-* `mostrestricted`      — `mostRestricted_perm`
-* `NewAllocator`        — `sortRegs_perm`
-* `RequiredISAExtensions` — `requiredISA_perm` (sorted list of a set; model compared with the pass on every compiled function)
-* `AllocateRegisters` (×2), `Allocation.Merge` — `allocate_kinds_perm` (per-kind allocations have keys of their own kind; the merged lookup is order independent)
-* `MaskSet.Clone/DifferenceUpdate/Equals/OfKind/Update` — `update_perm`, `update_flag_perm`, `difference_perm`, `ofKind_perm`, `get_perm`
-* `Allocation.Merge`    — see `allocate_kinds_perm` -/
-theorem mapRanges_expected : Avo.Gen.mapRanges =
-    [("pass/alloc.go", "*Allocator.AddInterferenceSet", "s"),
-     ("pass/alloc.go", "*Allocator.mostrestricted", "a.possible"),
-     ("pass/alloc.go", "NewAllocator", "idset"),
-     ("pass/isa.go", "RequiredISAExtensions", "set"),
-     ("pass/reg.go", "AllocateRegisters", "as"),
-     ("pass/reg.go", "AllocateRegisters", "as"),
-     ("reg/set.go", "MaskSet.Clone", "s"),
-     ("reg/set.go", "MaskSet.DifferenceUpdate", "t"),
-     ("reg/set.go", "MaskSet.Equals", "s"),
-     ("reg/set.go", "MaskSet.OfKind", "s"),
-     ("reg/set.go", "MaskSet.Update", "t"),
-     ("reg/types.go", "Allocation.Merge", "b")] := by decide
+/-- The map types whose enumeration order is covered by a theorem, with the theorem:
+* `pass  map[reg.ID]uint16`   (`reg.MaskSet` in `AddInterferenceSet`): the edge *list* order —
+  `allocLoop_perm` (via `foldl_perm`: `update` treats the edges as a multiset), `C17Pipeline.edgesOfE_perm`
+* `pass  map[reg.ID][]reg.ID` (`Allocator.possible` in `mostrestricted`): `mostRestricted_perm`
+* `pass  map[reg.ID]bool`     (`idset` in `NewAllocator`, then sorted): `sortRegs_perm`
+* `pass  map[string]bool`     (`set` in `RequiredISAExtensions`, then `sort.Strings`): `requiredISA_perm`
+  (model compared with the pass on every compiled function)
+* `pass  map[reg.Kind]*pass.Allocator` (`as` in `AllocateRegisters`, twice): `allocate_kinds_perm`
+* `reg   map[reg.ID]uint16`   (`MaskSet.Clone/DifferenceUpdate/Equals/OfKind/Update`): `update_perm`,
+  `update_flag_perm`, `difference_perm`, `ofKind_perm`, `get_perm`, `equals_perm`
+* `reg   map[reg.ID]reg.ID`   (`Allocation.Merge`): `allocate_kinds_perm` (per-kind allocations have keys of
+  their own kind; the merged lookup is order independent)
+All of them are composed in `C17Pipeline.generation_deterministic`. -/
+def knownMapIterTypes : List (String × String) :=
+  [("pass", "map[reg.ID][]reg.ID"),
+   ("pass", "map[reg.ID]bool"),
+   ("pass", "map[reg.ID]uint16"),
+   ("pass", "map[reg.Kind]*pass.Allocator"),
+   ("pass", "map[string]bool"),
+   ("reg", "map[reg.ID]reg.ID"),
+   ("reg", "map[reg.ID]uint16")]
+
+/-- Every map type enumerated in the generation path is a known one. -/
+theorem mapIterTypes_known : ∀ x ∈ Avo.Gen.mapIterTypes, x ∈ knownMapIterTypes := by decide
+
+/-- Non-vacuity of the census itself: the generation path does enumerate maps (an extractor that
+silently finds nothing would make `mapIterTypes_known` vacuous). -/
+theorem mapIterTypes_nonempty : Avo.Gen.mapIterTypes ≠ [] ∧ Avo.Gen.mapIterSites ≠ [] := by decide
+
+/-- The printers, the builder, the Go-type and build-tag packages enumerate no map at all, so the
+printed text is a function of the compiled file (used by `C17Pipeline`: `render` is a function). -/
+theorem only_pass_and_reg_enumerate_maps :
+    ∀ x ∈ Avo.Gen.mapIterTypes, x.1 = "pass" ∨ x.1 = "reg" := by decide
 
 end Avo.Determinism
